@@ -129,6 +129,7 @@ func Run(c *core.Ctx) {
 	// (iii) the proof layer's fragment, tied to the generator text and to the compiled code
 	fragment(c)
 	hoistFamily(c)
+	ctlFamily(c)
 	c.Sample(map[string]any{"note": "a rendered case", "args": randArgs(c.Rng)})
 }
 
